@@ -223,7 +223,7 @@ PROPS = {
     ),
     "C15": dict(
         thm=["Bgpfu.Thm.C15"],
-        ops=[("evalseq", ["c15"]), ("agentrun", ["c15"])],
+        ops=[("evalseq", ["c15"]), ("agentrun", ["c15"]), ("e2e", ["c15"])],
         level_text="Theorems (evaluator part; every database, every list of candidates in every order, every per-candidate "
                    "fault set): a completed run gives each candidate exactly its solo result (isolation, via C17's connection "
                    "invariant); candidates that fail with an error never abort the run; with the two proposed repairs "
@@ -264,7 +264,7 @@ PROPS = {
     ),
     "C07": dict(
         thm=["Bgpfu.Thm.C07", "Bgpfu.Thm.C05"],
-        ops=[("frame", ["only-close"]), ("sched", ["only-close"]), ("daemon", ["cfg=fixed", "only-streaks"])],
+        ops=[("frame", ["only-close"]), ("sched", ["only-close"]), ("daemon", ["cfg=fixed", "only-streaks"]), ("e2e", ["c07"])],
         level_text="Theorems: for every buffer content and every sequence of read results the receive loop never spins and "
                    "can only stay blocked while the stream is open; EOF / I/O error at any point yields an error, again on "
                    "every later call; the SSH pump exits on channel EOF and on channel closure and never spins. Real "
@@ -580,7 +580,7 @@ PROPS = {
     ),
     "C04": dict(
         thm=["Bgpfu.Thm.C04", "Bgpfu.Thm.C04Docs"],
-        ops=[("agentrun", [])],
+        ops=[("agentrun", []), ("e2e", ["c04"])],
         level_text="The run is modelled as a phase program (send all requests of a phase, then await them in order; any "
                    "error ends the run) against a server with one scripted fault. Theorems for EVERY number of loads, "
                    "every fault position and every fault kind: commit is requested only if open, both fetches and all "
